@@ -108,7 +108,7 @@ theorem sliceLine_spec {shy : Nat → Bool} {n : Nat} {rest : List It} {k ag : N
       o.line.start = ag + isz L ∧
       o.line.hpos = ag + isz L + isz body ∧
       o.ag' = ag + isz L + isz body + brk.size + isz G ∧
-      o.line.stop + (eolAcc 0 body + (if o.line.hyph then 0 else brk.size) + isz G) = o.ag' ∧
+      o.line.stop + ((if o.line.hyph then 0 else eolAcc 0 body + brk.size) + isz G) = o.ag' ∧
       (o.line.hyph = true ↔ (brk.ty = .pen ∧ brk.size = 1 ∧ shy (ag + isz L + isz body) = true)) := by
   unfold sliceLine at h
   simp only [] at h
@@ -281,30 +281,12 @@ theorem slice_covers {shy : Nat → Bool} {n : Nat} (ps : List Nat) : ∀ {ai : 
             obtain ⟨l, hl, hl2⟩ := ih hr' hlegal' os hos
             exact ⟨l, List.mem_cons_of_mem _ hl, hl2⟩
 
-theorem eolAcc_zero (l : List It) : ∀ e, (∀ it ∈ l, it.ty ≠ .box → it.size = 0) → eolAcc e l ≤ e := by
-  induction l with
-  | nil => intro e _; simp [eolAcc]
-  | cons x r ih =>
-    intro e h
-    simp only [eolAcc]
-    split
-    · have := ih 0 (fun it hit => h it (List.mem_cons_of_mem _ hit)); omega
-    · rename_i hx
-      have h0 := h x (List.mem_cons_self ..) hx
-      have := ih (e + x.size) (fun it hit => h it (List.mem_cons_of_mem _ hit)); omega
-
-/-- a soft hyphen at the break is the last glyph shown unless sized glue/penalties precede the break -/
+/-- a soft hyphen at the break is always the last glyph shown -/
 theorem sliceLine_hyphen {shy : Nat → Bool} {n : Nat} {rest : List It} {k ag : Nat} {o : LineOut}
-    (h : sliceLine shy n rest k ag = some o) (hy : o.line.hyph = true)
-    (hz : ∀ it ∈ rest.take k, it.ty ≠ .box → it.size = 0) :
+    (h : sliceLine shy n rest k ag = some o) (hy : o.line.hyph = true) :
     o.line.stop = o.line.hpos + 1 ∧ shy o.line.hpos = true := by
   obtain ⟨L, body, brk, G, rest', hrest, hk, _, hG, hu, hst, hhp, hag, hstop, hiff⟩ := sliceLine_spec h
   have hb := hiff.1 hy
-  have htk : rest.take k = L ++ body := by
-    rw [hrest, ← hk, ← List.append_assoc, List.take_left' (by simp)]
-  have he : eolAcc 0 body = 0 := by
-    have := eolAcc_zero body 0 (fun it hit => hz it (by rw [htk]; exact List.mem_append_right _ hit))
-    omega
   rw [hy] at hstop
   simp only [if_true] at hstop
   refine ⟨by omega, ?_⟩
